@@ -188,6 +188,9 @@ func (e *env) hung(what string) {
 	e.dead = true
 	e.res.outcome = 3
 	e.res.note = what
+	if w := e.c.stacks(); w != "" {
+		e.res.note = clip(what + "; " + w)
+	}
 }
 
 // send delivers one frame; in netx mode it returns the counters after the frame (lock step).
@@ -849,6 +852,9 @@ func runBarrage(b barrage, tm timing) *result {
 		if code != 0 {
 			res.outcome = 10 + code
 			res.note = "child alive but " + strings.Join(failed, ", ") + fmt.Sprintf(" within %v", tm.probe)
+			if w := c.stacks(); w != "" {
+				res.note = clip(res.note + "; " + w)
+			}
 		}
 	}
 	return res
